@@ -176,4 +176,119 @@ Lemma loop_last f s s1 : fsm_step src offs maxrow s = Ok s1 -> s_index s1 = len 
   fsm_loop (S f) src offs maxrow s = Ok (out_of s1).
 Proof. intros Hst Hi. cbn [fsm_loop]. rewrite Hst. cbn [bind]. rewrite Hi, Z.eqb_refl. reflexivity. Qed.
 
+(* ---- one cell ------------------------------------------------------------------------ *)
+Section Cell.
+Variables (e c r vfc cs ic coff cvc : Z) (inds : arr2).
+Let wr := 0 <=? r.
+Definition S0 (i:Z) (esc cand:bool) (k:Z) (vals:list Z) : st :=
+  mkSt i e c r vfc esc cand k cs ic false false coff cvc inds vals.
+
+Definition fits (k:Z) (vals bs:list Z) : Prop :=
+  wr = true -> 0 <= coff + cs + k /\ coff + cs + k + len bs <= len vals /\ cs + k + len bs < cvc.
+
+Lemma noexit_S0 i esc cand k vals x t : 0 <= i -> suf src i = x :: t -> noexit (S0 i esc cand k vals).
+Proof.
+  intros Hi H. destruct (suf_cons src i x t Hi H) as (Hlt & _). unfold noexit, S0. cbn. repeat split; lia.
+Qed.
+
+Lemma run_plain bs : forall i k vals rest,
+  0 <= i -> 0 <= k -> suf src i = bs ++ rest -> rest <> [] ->
+  forallb (fun b => negb (special b)) bs = true -> fits k vals bs ->
+  runn (length bs) (S0 i false false k vals)
+       (S0 (i + len bs) false false (if wr then k + len bs else k) (if wr then wrs vals (coff + cs + k) bs else vals)).
+Proof.
+  induction bs as [|b bs IH]; intros i k vals rest Hi Hk H Hrest Hall Hfit.
+  - rewrite len_nil, !Z.add_0_r. cbn [wrs]. destruct wr; constructor.
+  - cbn [forallb] in Hall. apply andb_prop in Hall. destruct Hall as (Hb & Hall).
+    apply negb_true_iff in Hb. cbn [app] in H.
+    destruct (suf_cons src i b (bs ++ rest) Hi H) as (_ & _ & Hs & _).
+    pose proof (len_nonneg bs) as Hlb. rewrite len_cons in *.
+    eapply runnS.
+    + apply (step_inner i e c r vfc false false k cs ic coff cvc inds vals b (bs ++ rest) true false false Hi H).
+      * apply cl_plain. exact Hb.
+      * cbn [andb]. fold wr. intros Hw. destruct (Hfit Hw) as (F1 & F2 & F3). rewrite len_cons in *. lia.
+    + cbn [andb]. fold wr. destruct (bs ++ rest) as [|x t] eqn:E.
+      { destruct bs; cbn in E; [contradiction|discriminate]. }
+      eapply (noexit_S0 (i + 1)); [lia|exact Hs].
+    + cbn [andb]. fold wr. fold (S0 (i + 1) false false (if wr then k + 1 else k) (if wr then upd vals (coff + cs + k) b else vals)).
+      replace (i + (len bs + 1)) with ((i + 1) + len bs) by lia.
+      destruct wr eqn:Ew.
+      * replace (k + (len bs + 1)) with ((k + 1) + len bs) by lia. cbn [wrs].
+        replace (coff + cs + k + 1) with (coff + cs + (k + 1)) by lia.
+        apply (IH (i + 1) (k + 1) (upd vals (coff + cs + k) b) rest); try lia; try assumption.
+        intros _. destruct (Hfit Ew) as (F1 & F2 & F3). rewrite len_cons in *. rewrite len_upd. lia.
+      * apply (IH (i + 1) k vals rest); try lia; try assumption. intros Hw; congruence.
+Qed.
+
+Lemma run_qbody t : forall i k vals d rest,
+  0 <= i -> 0 <= k -> suf src i = escape_quotes t ++ ESC :: d :: rest -> d = SEP \/ d = NL -> fits k vals t ->
+  runn (length (escape_quotes t) + 1) (S0 i true false k vals)
+       (S0 (i + len (escape_quotes t) + 1) false false (if wr then k + len t else k)
+           (if wr then wrs vals (coff + cs + k) t else vals)).
+Proof.
+  induction t as [|b t IH]; intros i k vals d rest Hi Hk H Hd Hfit.
+  - cbn [escape_quotes app length Nat.add] in *. rewrite len_nil, !Z.add_0_r. cbn [wrs].
+    apply runn_one.
+    + unfold S0. rewrite (step_inner i e c r vfc true false k cs ic coff cvc inds vals ESC (d :: rest) false false false Hi H).
+      * cbn [andb]. destruct wr; reflexivity.
+      * eapply cl_close; eauto.
+      * cbn [andb]. discriminate.
+    + destruct (suf_cons src i ESC (d :: rest) Hi H) as (_ & _ & Hs & _).
+      destruct wr; eapply (noexit_S0 (i + 1)); try lia; exact Hs.
+  - pose proof (len_nonneg t) as Hlt. pose proof (len_nonneg (escape_quotes t)) as Hle.
+    cbn [escape_quotes] in *. destruct (b =? ESC) eqn:Eb.
+    + (* doubled quote: two steps, one byte written *)
+      apply Z.eqb_eq in Eb. subst b. cbn [app] in H.
+      destruct (suf_cons src i ESC _ Hi H) as (_ & _ & Hs & _).
+      destruct (suf_cons src (i + 1) ESC _ ltac:(lia) Hs) as (_ & _ & Hs2 & _).
+      rewrite !len_cons. cbn [length].
+      replace (S (S (length (escape_quotes t))) + 1)%nat with (1 + (1 + (length (escape_quotes t) + 1)))%nat by lia.
+      eapply runn_trans; [|eapply runn_trans].
+      * apply runn_one.
+        -- apply (step_inner i e c r vfc true false k cs ic coff cvc inds vals ESC _ false true true Hi H).
+           ++ eapply cl_q1; eauto.
+           ++ cbn [andb]. discriminate.
+        -- cbn [andb]. eapply (noexit_S0 (i + 1) true true k vals); [lia|exact Hs].
+      * cbn [andb]. apply runn_one.
+        -- apply (step_inner (i + 1) e c r vfc true true k cs ic coff cvc inds vals ESC _ true true false ltac:(lia) Hs).
+           ++ apply cl_q2.
+           ++ cbn [andb]. fold wr. intros Hw. destruct (Hfit Hw) as (F1 & F2 & F3). rewrite len_cons in *. lia.
+        -- cbn [andb]. fold wr.
+           destruct (escape_quotes t ++ ESC :: d :: rest) as [|x tt] eqn:E.
+           { destruct (escape_quotes t); discriminate. }
+           eapply (noexit_S0 (i + 1 + 1)); [lia|exact Hs2].
+      * cbn [andb]. fold wr.
+        fold (S0 (i + 1 + 1) true false (if wr then k + 1 else k) (if wr then upd vals (coff + cs + k) ESC else vals)).
+        replace (i + (len (escape_quotes t) + 1 + 1) + 1) with ((i + 1 + 1) + len (escape_quotes t) + 1) by lia.
+        destruct wr eqn:Ew.
+        -- replace (k + (len t + 1)) with ((k + 1) + len t) by lia. cbn [wrs].
+           replace (coff + cs + k + 1) with (coff + cs + (k + 1)) by lia.
+           apply (IH (i + 1 + 1) (k + 1) (upd vals (coff + cs + k) ESC) d rest); try lia; try assumption.
+           intros _. destruct (Hfit Ew) as (F1 & F2 & F3). rewrite len_cons in *. rewrite len_upd. lia.
+        -- apply (IH (i + 1 + 1) k vals d rest); try lia; try assumption. intros Hw; congruence.
+    + (* ordinary byte inside quotes *)
+      apply Z.eqb_neq in Eb. cbn [app] in H.
+      destruct (suf_cons src i b _ Hi H) as (_ & _ & Hs & _).
+      rewrite !len_cons. cbn [length Nat.add].
+      eapply runnS.
+      * apply (step_inner i e c r vfc true false k cs ic coff cvc inds vals b _ true true false Hi H).
+        -- apply cl_in. exact Eb.
+        -- cbn [andb]. fold wr. intros Hw. destruct (Hfit Hw) as (F1 & F2 & F3). rewrite len_cons in *. lia.
+      * cbn [andb]. fold wr.
+        destruct (escape_quotes t ++ ESC :: d :: rest) as [|x tt] eqn:E.
+        { destruct (escape_quotes t); discriminate. }
+        eapply (noexit_S0 (i + 1)); [lia|exact Hs].
+      * cbn [andb]. fold wr.
+        fold (S0 (i + 1) true false (if wr then k + 1 else k) (if wr then upd vals (coff + cs + k) b else vals)).
+        replace (i + (len (escape_quotes t) + 1) + 1) with ((i + 1) + len (escape_quotes t) + 1) by lia.
+        destruct wr eqn:Ew.
+        -- replace (k + (len t + 1)) with ((k + 1) + len t) by lia. cbn [wrs].
+           replace (coff + cs + k + 1) with (coff + cs + (k + 1)) by lia.
+           apply (IH (i + 1) (k + 1) (upd vals (coff + cs + k) b) d rest); try lia; try assumption.
+           intros _. destruct (Hfit Ew) as (F1 & F2 & F3). rewrite len_cons in *. rewrite len_upd. lia.
+        -- apply (IH (i + 1) k vals d rest); try lia; try assumption. intros Hw; congruence.
+Qed.
+
+End Cell.
+
 End Kernel.
